@@ -260,7 +260,7 @@ pub open spec fn step_ok<Old: Index<usize> + ?Sized, New: Index<usize> + ?Sized>
 }
 
 pub open spec fn win_carried(w1: Seq<DiffOp>, w2: Seq<DiffOp>) -> bool {
-    etot(w1) == etot(w2) && forall|e0: int, et: int| 0 <= e0 && #[trigger] carried_in(w1, e0, et) ==> carried_in(w2, e0, et)
+    etot(w1) == etot(w2) && forall|e0: int, et: int| 0 <= e0 && e0 + etot(w1) <= et && #[trigger] carried_in(w1, e0, et) ==> carried_in(w2, e0, et)
 }
 
 pub proof fn lemma_step_window<Old: Index<usize> + ?Sized, New: Index<usize> + ?Sized>(old: &Old, new: &New, pre: Seq<DiffOp>, w1: Seq<DiffOp>, w2: Seq<DiffOp>, post: Seq<DiffOp>, exact: bool)
@@ -295,7 +295,8 @@ pub proof fn lemma_carried_eq(ops: Seq<DiffOp>)
 }
 
 pub proof fn lemma_carried_window(pre: Seq<DiffOp>, w1: Seq<DiffOp>, w2: Seq<DiffOp>, post: Seq<DiffOp>)
-    requires win_carried(w1, w2),
+    requires etot(w1) == etot(w2),
+        win_carried(w1, w2) || (carried_in(w1, etot(pre), etot(cat3(pre, w1, post))) ==> carried_in(w2, etot(pre), etot(cat3(pre, w1, post)))),
     ensures carried_ok(cat3(pre, w1, post)) ==> carried_ok(cat3(pre, w2, post)),
         etot(cat3(pre, w1, post)) == etot(cat3(pre, w2, post)),
 {
@@ -304,7 +305,7 @@ pub proof fn lemma_carried_window(pre: Seq<DiffOp>, w1: Seq<DiffOp>, w2: Seq<Dif
     lemma_cat3_tot(pre, w1, post);
     lemma_cat3_tot(pre, w2, post);
     let et = etot(s1); let e0 = etot(pre);
-    lemma_sum_nonneg(pre, pre.len() as int);
+    lemma_sum_nonneg(pre, pre.len() as int); lemma_sum_nonneg(post, post.len() as int);
     if carried_ok(s1) {
         assert(carried_in(w1, e0, et)) by {
             assert forall|j: int| 0 <= j < w1.len() implies match #[trigger] w1[j] {
@@ -436,7 +437,7 @@ pub proof fn lemma_win_merge<Old: Index<usize> + ?Sized, New: Index<usize> + ?Si
         assert forall|j: int| 0 <= j < w2.len() implies #[trigger] op_ok(old, new, w2, j, wb, exact) by { assert(w2[0] == m); }
         assert forall|j: int| 0 <= j < w2.len() implies olen(#[trigger] w2[j]) + nlen(w2[j]) > 0 by { assert(w2[0] == m); assert(olen(w1[0]) + nlen(w1[0]) > 0); }
     }
-    assert forall|e0: int, et: int| 0 <= e0 && #[trigger] carried_in(w1, e0, et) implies carried_in(w2, e0, et) by {
+    assert forall|e0: int, et: int| 0 <= e0 && e0 + etot(w1) <= et && #[trigger] carried_in(w1, e0, et) implies carried_in(w2, e0, et) by {
         assert(w1[0] == a);
         assert forall|j: int| 0 <= j < w2.len() implies match #[trigger] w2[j] {
             DiffOp::Insert { old_index, .. } => e0 + esum(w2, j) <= old_index && old_index + (et - e0 - esum(w2, j)) <= usize::MAX,
@@ -475,6 +476,242 @@ pub proof fn lemma_win_swap<Old: Index<usize> + ?Sized, New: Index<usize> + ?Siz
             }
         }
     }
+}
+
+
+/// lengths and the cursor-side placement of an op, without the sequence around it
+pub open spec fn op_place<Old: Index<usize> + ?Sized, New: Index<usize> + ?Sized>(old: &Old, new: &New, op: DiffOp, co: int, cn: int, exact: bool) -> bool
+  where New::Output: PartialEq<Old::Output>
+{
+    match op {
+        DiffOp::Equal { old_index, new_index, len } => old_index == co && new_index == cn
+            && (forall|k: int| 0 <= k < len ==> #[trigger] relk(rel_of(old, new), co, cn, k)),
+        DiffOp::Delete { old_index, old_len, new_index } => old_index == co && (exact ==> new_index == cn),
+        DiffOp::Insert { old_index, new_index, new_len } => new_index == cn && (exact ==> old_index == co),
+        DiffOp::Replace { old_index, old_len, new_index, new_len } => false,
+    }
+}
+
+/// the Insert i moves up across the last s items of the Equal e: these s pairs reappear behind it, as a new Equal or
+/// as the head of the Equal f that followed (the pairs are the ones `common_suffix_len` certified)
+pub proof fn lemma_up_ops<Old: Index<usize> + ?Sized, New: Index<usize> + ?Sized>(old: &Old, new: &New, e: DiffOp, i: DiffOp, f: DiffOp, s: usize, grew: bool, co: int, cn: int, exact: bool)
+  where New::Output: PartialEq<Old::Output>
+    requires e is Equal, i is Insert, 0 < s <= op_old_len(e), s <= op_new_len(i), 0 <= co, 0 <= cn, op_wf(e), op_wf(i),
+        op_place(old, new, e, co, cn, exact), op_place(old, new, i, co + olen(e), cn + olen(e), exact),
+        grew ==> f is Equal && op_old_len(f) + s <= usize::MAX && op_place(old, new, f, co + olen(e), cn + olen(e) + nlen(i), exact),
+        forall|k: int| 0 <= k < s ==> #[trigger] relk(rel_of(old, new), op_old_end(e) - s, op_new_end(i) - s, k),
+    ensures
+        ({
+            let e2 = adjusted(e, 0, false, s, true); let i2 = adjusted(i, s, true, 0, false);
+            let g = if grew { adjusted(f, s, true, s, false) } else { up_new_equal(e, i, s) };
+            &&& e2 is Equal && i2 is Insert && g is Equal
+            &&& olen(e2) == olen(e) - s && nlen(i2) == nlen(i) && olen(g) == (if grew { olen(f) + s } else { s as int })
+            &&& op_place(old, new, e2, co, cn, exact)
+            &&& op_place(old, new, i2, co + olen(e) - s, cn + olen(e) - s, exact)
+            &&& op_place(old, new, g, co + olen(e) - s, cn + olen(e) - s + nlen(i), exact)
+            &&& op_old_index(i2) == op_old_index(i) - s || op_old_index(i) < s
+        }),
+{
+    let rel = rel_of(old, new);
+    let g = if grew { adjusted(f, s, true, s, false) } else { up_new_equal(e, i, s) };
+    let el = olen(e); let il = nlen(i);
+    let go = co + el - s; let gn = cn + el - s + il;
+    assert(op_old_end(e) - s == go && op_new_end(i) - s == gn);
+    assert forall|k: int| 0 <= k < olen(g) implies #[trigger] relk(rel, go, gn, k) by {
+        if k < s { assert(relk(rel, op_old_end(e) - s, op_new_end(i) - s, k)); }
+        else { assert(relk(rel, co + el, cn + el + il, k - s)); }
+    }
+}
+
+/// the Insert i moves down across the first s items of the Equal f: these s pairs reappear before it, as a new Equal or
+/// as the tail of the Equal e that preceded (the pairs are the ones `common_prefix_len` certified)
+pub proof fn lemma_down_ops<Old: Index<usize> + ?Sized, New: Index<usize> + ?Sized>(old: &Old, new: &New, e: DiffOp, i: DiffOp, f: DiffOp, s: usize, grew: bool, co: int, cn: int, exact: bool)
+  where New::Output: PartialEq<Old::Output>
+    requires f is Equal, i is Insert, 0 < s <= op_old_len(f), s <= op_new_len(i), 0 <= co, 0 <= cn,
+        grew ==> e is Equal && op_old_len(e) + s <= usize::MAX && op_place(old, new, e, co, cn, exact),
+        ({ let el = if grew { olen(e) } else { 0 };
+           op_place(old, new, i, co + el, cn + el, exact) && op_place(old, new, f, co + el, cn + el + nlen(i), exact)
+           && op_old_index(f) + s <= usize::MAX && op_new_index(f) + s <= usize::MAX && op_new_index(i) + s <= usize::MAX }),
+        forall|k: int| 0 <= k < s ==> #[trigger] relk(rel_of(old, new), op_old_index(f) as int, op_new_index(i) as int, k),
+    ensures
+        ({
+            let el = if grew { olen(e) } else { 0 };
+            let g = if grew { adjusted(e, 0, false, s, false) } else { down_new_equal(i, f, s) };
+            let i2 = adjusted(i, s, false, 0, false); let f2 = adjusted(f, s, false, s, true);
+            &&& g is Equal && i2 is Insert && f2 is Equal
+            &&& olen(g) == el + s && nlen(i2) == nlen(i) && olen(f2) == olen(f) - s
+            &&& op_place(old, new, g, co, cn, exact)
+            &&& op_place(old, new, i2, co + el + s, cn + el + s, exact)
+            &&& op_place(old, new, f2, co + el + s, cn + el + s + nlen(i), exact)
+            &&& op_old_index(i2) == op_old_index(i) + s || op_old_index(i) + s > usize::MAX
+        }),
+{
+    let rel = rel_of(old, new);
+    let el = if grew { olen(e) } else { 0 }; let il = nlen(i); let fl = olen(f);
+    let fo = op_old_index(f) as int; let fnn = op_new_index(f) as int;
+    assert(fo == co + el && fnn == cn + el + il && op_new_index(i) == cn + el);
+    assert forall|k: int| 0 <= k < el + s implies #[trigger] relk(rel, co, cn, k) by {
+        if k < el { } else { assert(relk(rel, fo, op_new_index(i) as int, k - el)); }
+    }
+    assert forall|k: int| 0 <= k < fl - s implies #[trigger] relk(rel, fo + s, fnn + s, k) by { assert(relk(rel, fo, fnn, k + s)); }
+}
+
+
+pub open spec fn nonempty(op: DiffOp) -> bool { olen(op) + nlen(op) > 0 }
+
+/// a complete script of two / three ops, spelled out
+pub proof fn lemma_full2<Old: Index<usize> + ?Sized, New: Index<usize> + ?Sized>(old: &Old, new: &New, a: DiffOp, c: DiffOp, wb: OBox, exact: bool)
+  where New::Output: PartialEq<Old::Output>
+    ensures ops_full(old, new, seq![a, c], wb, exact) == (box_wf(wb) && nonempty(a) && nonempty(c)
+        && op_place(old, new, a, wb.o0, wb.n0, exact) && op_place(old, new, c, wb.o0 + olen(a), wb.n0 + nlen(a), exact)
+        && wb.o0 + olen(a) + olen(c) == wb.oe && wb.n0 + nlen(a) + nlen(c) == wb.ne),
+{
+    let w = seq![a, c];
+    lemma_sums2(a, c);
+    assert(w[0] == a && w[1] == c && w.len() == 2);
+    if ops_full(old, new, w, wb, exact) {
+        assert(op_ok(old, new, w, 0, wb, exact)); assert(op_ok(old, new, w, 1, wb, exact));
+        assert(nonempty(w[0]) && nonempty(w[1]));
+    } else if box_wf(wb) && nonempty(a) && nonempty(c)
+        && op_place(old, new, a, wb.o0, wb.n0, exact) && op_place(old, new, c, wb.o0 + olen(a), wb.n0 + nlen(a), exact)
+        && wb.o0 + olen(a) + olen(c) == wb.oe && wb.n0 + nlen(a) + nlen(c) == wb.ne {
+        assert forall|j: int| 0 <= j < w.len() implies #[trigger] op_ok(old, new, w, j, wb, exact) by { if j == 0 {} else { assert(j == 1); } }
+        assert forall|j: int| 0 <= j < w.len() implies olen(#[trigger] w[j]) + nlen(w[j]) > 0 by { if j == 0 {} else { assert(j == 1); } }
+        assert(false);
+    }
+}
+
+pub proof fn lemma_full3<Old: Index<usize> + ?Sized, New: Index<usize> + ?Sized>(old: &Old, new: &New, a: DiffOp, c: DiffOp, d: DiffOp, wb: OBox, exact: bool)
+  where New::Output: PartialEq<Old::Output>
+    ensures ops_full(old, new, seq![a, c, d], wb, exact) == (box_wf(wb) && nonempty(a) && nonempty(c) && nonempty(d)
+        && op_place(old, new, a, wb.o0, wb.n0, exact) && op_place(old, new, c, wb.o0 + olen(a), wb.n0 + nlen(a), exact)
+        && op_place(old, new, d, wb.o0 + olen(a) + olen(c), wb.n0 + nlen(a) + nlen(c), exact)
+        && wb.o0 + olen(a) + olen(c) + olen(d) == wb.oe && wb.n0 + nlen(a) + nlen(c) + nlen(d) == wb.ne),
+{
+    let w = seq![a, c, d];
+    lemma_sums3(a, c, d);
+    assert(w[0] == a && w[1] == c && w[2] == d && w.len() == 3);
+    if ops_full(old, new, w, wb, exact) {
+        assert(op_ok(old, new, w, 0, wb, exact)); assert(op_ok(old, new, w, 1, wb, exact)); assert(op_ok(old, new, w, 2, wb, exact));
+        assert(nonempty(w[0]) && nonempty(w[1]) && nonempty(w[2]));
+    } else if box_wf(wb) && nonempty(a) && nonempty(c) && nonempty(d)
+        && op_place(old, new, a, wb.o0, wb.n0, exact) && op_place(old, new, c, wb.o0 + olen(a), wb.n0 + nlen(a), exact)
+        && op_place(old, new, d, wb.o0 + olen(a) + olen(c), wb.n0 + nlen(a) + nlen(c), exact)
+        && wb.o0 + olen(a) + olen(c) + olen(d) == wb.oe && wb.n0 + nlen(a) + nlen(c) + nlen(d) == wb.ne {
+        assert forall|j: int| 0 <= j < w.len() implies #[trigger] op_ok(old, new, w, j, wb, exact) by { if j == 0 {} else if j == 1 {} else { assert(j == 2); } }
+        assert forall|j: int| 0 <= j < w.len() implies olen(#[trigger] w[j]) + nlen(w[j]) > 0 by { if j == 0 {} else if j == 1 {} else { assert(j == 2); } }
+        assert(false);
+    }
+}
+
+/// carried_in of two / three ops, spelled out
+pub open spec fn carried_one(op: DiffOp, eb: int, et: int) -> bool {
+    match op {
+        DiffOp::Insert { old_index, .. } => eb <= old_index && old_index + (et - eb) <= usize::MAX,
+        DiffOp::Delete { new_index, .. } => eb <= new_index && new_index + (et - eb) <= usize::MAX,
+        _ => true,
+    }
+}
+
+pub proof fn lemma_carried2(a: DiffOp, c: DiffOp, e0: int, et: int)
+    ensures carried_in(seq![a, c], e0, et) == (carried_one(a, e0, et) && carried_one(c, e0 + elen(a), et)),
+        etot(seq![a, c]) == elen(a) + elen(c),
+{
+    let w = seq![a, c];
+    lemma_sums2(a, c);
+    assert(w[0] == a && w[1] == c && w.len() == 2);
+    if carried_in(w, e0, et) {
+        assert(carried_one(w[0], e0 + esum(w, 0), et)); assert(carried_one(w[1], e0 + esum(w, 1), et));
+    } else if carried_one(a, e0, et) && carried_one(c, e0 + elen(a), et) {
+        assert forall|i: int| 0 <= i < w.len() implies match #[trigger] w[i] {
+            DiffOp::Insert { old_index, .. } => e0 + esum(w, i) <= old_index && old_index + (et - e0 - esum(w, i)) <= usize::MAX,
+            DiffOp::Delete { new_index, .. } => e0 + esum(w, i) <= new_index && new_index + (et - e0 - esum(w, i)) <= usize::MAX,
+            _ => true,
+        } by { if i == 0 {} else { assert(i == 1); } }
+        assert(false);
+    }
+}
+
+pub proof fn lemma_carried3(a: DiffOp, c: DiffOp, d: DiffOp, e0: int, et: int)
+    ensures carried_in(seq![a, c, d], e0, et) == (carried_one(a, e0, et) && carried_one(c, e0 + elen(a), et) && carried_one(d, e0 + elen(a) + elen(c), et)),
+        etot(seq![a, c, d]) == elen(a) + elen(c) + elen(d),
+{
+    let w = seq![a, c, d];
+    lemma_sums3(a, c, d);
+    assert(w[0] == a && w[1] == c && w[2] == d && w.len() == 3);
+    if carried_in(w, e0, et) {
+        assert(carried_one(w[0], e0 + esum(w, 0), et)); assert(carried_one(w[1], e0 + esum(w, 1), et)); assert(carried_one(w[2], e0 + esum(w, 2), et));
+    } else if carried_one(a, e0, et) && carried_one(c, e0 + elen(a), et) && carried_one(d, e0 + elen(a) + elen(c), et) {
+        assert forall|i: int| 0 <= i < w.len() implies match #[trigger] w[i] {
+            DiffOp::Insert { old_index, .. } => e0 + esum(w, i) <= old_index && old_index + (et - e0 - esum(w, i)) <= usize::MAX,
+            DiffOp::Delete { new_index, .. } => e0 + esum(w, i) <= new_index && new_index + (et - e0 - esum(w, i)) <= usize::MAX,
+            _ => true,
+        } by { if i == 0 {} else if i == 1 {} else { assert(i == 2); } }
+        assert(false);
+    }
+}
+
+
+pub open spec fn up_window(e: DiffOp, i: DiffOp, f: DiffOp, s: usize, grew: bool) -> Seq<DiffOp> {
+    let e2 = adjusted(e, 0, false, s, true); let i2 = adjusted(i, s, true, 0, false);
+    let g = if grew { adjusted(f, s, true, s, false) } else { up_new_equal(e, i, s) };
+    if op_old_len(e) == s { seq![i2, g] } else { seq![e2, i2, g] }
+}
+
+pub proof fn lemma_win_shift_up<Old: Index<usize> + ?Sized, New: Index<usize> + ?Sized>(old: &Old, new: &New, e: DiffOp, i: DiffOp, f: DiffOp, s: usize, grew: bool, exact: bool)
+  where New::Output: PartialEq<Old::Output>
+    requires e is Equal, i is Insert, grew ==> f is Equal && op_old_len(f) + s <= usize::MAX, 0 < s <= op_old_len(e), s <= op_new_len(i), op_wf(e), op_wf(i),
+        forall|k: int| 0 <= k < s ==> #[trigger] relk(rel_of(old, new), op_old_end(e) - s, op_new_end(i) - s, k),
+    ensures
+        win_ok(old, new, if grew { seq![e, i, f] } else { seq![e, i] }, up_window(e, i, f, s, grew), exact),
+        win_carried(if grew { seq![e, i, f] } else { seq![e, i] }, up_window(e, i, f, s, grew)),
+{
+    let w1 = if grew { seq![e, i, f] } else { seq![e, i] }; let w2 = up_window(e, i, f, s, grew);
+    let e2 = adjusted(e, 0, false, s, true); let i2 = adjusted(i, s, true, 0, false);
+    let g = if grew { adjusted(f, s, true, s, false) } else { up_new_equal(e, i, s) };
+    let removed = op_old_len(e) == s;
+    assert forall|wb: OBox| #[trigger] ops_full(old, new, w1, wb, exact) implies ops_full(old, new, w2, wb, exact) by {
+        if grew { lemma_full3(old, new, e, i, f, wb, exact); } else { lemma_full2(old, new, e, i, wb, exact); }
+        lemma_up_ops(old, new, e, i, f, s, grew, wb.o0, wb.n0, exact);
+        if removed { lemma_full2(old, new, i2, g, wb, exact); } else { lemma_full3(old, new, e2, i2, g, wb, exact); }
+    }
+    assert forall|e0: int, et: int| 0 <= e0 && e0 + etot(w1) <= et && #[trigger] carried_in(w1, e0, et) implies carried_in(w2, e0, et) by {
+        if grew { lemma_carried3(e, i, f, e0, et); } else { lemma_carried2(e, i, e0, et); }
+        if removed { lemma_carried2(i2, g, e0, et); } else { lemma_carried3(e2, i2, g, e0, et); }
+    }
+    if grew { lemma_carried3(e, i, f, 0, 0); } else { lemma_carried2(e, i, 0, 0); }
+    if removed { lemma_carried2(i2, g, 0, 0); } else { lemma_carried3(e2, i2, g, 0, 0); }
+}
+
+pub open spec fn down_window(e: DiffOp, i: DiffOp, f: DiffOp, s: usize, grew: bool) -> Seq<DiffOp> {
+    let g = if grew { adjusted(e, 0, false, s, false) } else { down_new_equal(i, f, s) };
+    let i2 = adjusted(i, s, false, 0, false); let f2 = adjusted(f, s, false, s, true);
+    if op_old_len(f) == s { seq![g, i2] } else { seq![g, i2, f2] }
+}
+
+pub proof fn lemma_win_shift_down<Old: Index<usize> + ?Sized, New: Index<usize> + ?Sized>(old: &Old, new: &New, e: DiffOp, i: DiffOp, f: DiffOp, s: usize, grew: bool, exact: bool)
+  where New::Output: PartialEq<Old::Output>
+    requires f is Equal, i is Insert, grew ==> e is Equal && op_old_len(e) + s <= usize::MAX, 0 < s <= op_old_len(f), s <= op_new_len(i), op_wf(f), op_wf(i),
+        forall|k: int| 0 <= k < s ==> #[trigger] relk(rel_of(old, new), op_old_index(f) as int, op_new_index(i) as int, k),
+    ensures
+        win_ok(old, new, if grew { seq![e, i, f] } else { seq![i, f] }, down_window(e, i, f, s, grew), exact),
+        win_carried(if grew { seq![e, i, f] } else { seq![i, f] }, down_window(e, i, f, s, grew)),
+{
+    let w1 = if grew { seq![e, i, f] } else { seq![i, f] }; let w2 = down_window(e, i, f, s, grew);
+    let g = if grew { adjusted(e, 0, false, s, false) } else { down_new_equal(i, f, s) };
+    let i2 = adjusted(i, s, false, 0, false); let f2 = adjusted(f, s, false, s, true);
+    let removed = op_old_len(f) == s;
+    assert forall|wb: OBox| #[trigger] ops_full(old, new, w1, wb, exact) implies ops_full(old, new, w2, wb, exact) by {
+        if grew { lemma_full3(old, new, e, i, f, wb, exact); } else { lemma_full2(old, new, i, f, wb, exact); }
+        lemma_down_ops(old, new, e, i, f, s, grew, wb.o0, wb.n0, exact);
+        if removed { lemma_full2(old, new, g, i2, wb, exact); } else { lemma_full3(old, new, g, i2, f2, wb, exact); }
+    }
+    assert forall|e0: int, et: int| 0 <= e0 && e0 + etot(w1) <= et && #[trigger] carried_in(w1, e0, et) implies carried_in(w2, e0, et) by {
+        if grew { lemma_carried3(e, i, f, e0, et); } else { lemma_carried2(i, f, e0, et); }
+        if removed { lemma_carried2(g, i2, e0, et); } else { lemma_carried3(g, i2, f2, e0, et); }
+    }
+    if grew { lemma_carried3(e, i, f, 0, 0); } else { lemma_carried2(i, f, 0, 0); }
+    if removed { lemma_carried2(g, i2, 0, 0); } else { lemma_carried3(g, i2, f2, 0, 0); }
 }
 
 } // verus!
